@@ -16,7 +16,9 @@
  * use maxlen down to 1 everywhere, so both are also covered by the random histories.
  * Probes (cases 8, 10, 11 mod 50, unless argv[4] == "noprobe"): ANwriteann with an empty text (an-write-empty);
  * DFANgetfid without DFANgetfidlen repeats the last label (dfan-getf-repeat); DFAN's per-file-name directory cache
- * misses annotations written through AN* (dfan-stale-dir).
+ * misses annotations written through AN* (dfan-stale-dir).  Case 18 mod 50 is the positive test of a repaired defect
+ * (/repo 380b3fd): DFANlablist with maxlen = 1 must not write beyond the caller's label buffer (dfan-lablist-overrun);
+ * the walk oracle keeps the key dfan-walk-endless of another (/repo 358eba8: the walk's end marker was a live ref).
  * Sessions on a file that STAYS OPEN (filerec_t keeps the four trees, the annotation atoms and the four counts between
  * ANstart and ANend, and the record outlives ANend): after the first session 60 % of the cases run 1-3 further sessions
  * separated by ANend only (`endan`) and ANstart again (`restart`) - on the same file id, or on a second file id of the
@@ -25,7 +27,18 @@
  * the open file id (`dfaddf`), Hputelement on the open file id (`hput`, all four tags), a whole DFAN session by file
  * name.  Every session creates/rewrites through AN, then compares lists, counts, ids, lengths and texts of all four
  * types with the shadow (verify_all + ANfileinfo on the loaded trees).
- * Oracles (model-independent): the shadow list below (type, ref, target, bytes; creation order).
+ * Reference numbers and DD order are NOT the tidy 1..n of a file written once (every enumeration interface must list
+ * exactly what the file holds, whatever the refs): while no AN session is open annotations of all four types are
+ * deleted (`hdel`, Hdeldd - the only deletion HDF4 offers), written with explicit refs through the H interface (sparse,
+ * out of creation order, 65535, refs from Hnewref's file-wide counter), and other objects are created and deleted in
+ * between, so that new DDs land in freed DDs in front of older ones (DD order != creation order != ref order) - on the
+ * open file id between two sessions and on the closed file (offline_edits).  Enumerations checked afterwards:
+ * ANfileinfo + ANselect over every index, ANnumann/ANannlist, the DFANgetfidlen/DFANgetfid and DFANgetfdslen/DFANgetfds
+ * walks (`dfflen`/`dffget`: both protocols, restarted with isfirst = 1 in the middle; the model carries dfan.c's static
+ * Next_label_ref/Next_desc_ref), DFANlablist (`dflablist`).  Cases 16, 17 mod 50: the walks over several files one after
+ * the other, a walk of one file abandoned in the middle (implementation oracle only).
+ * Oracles (model-independent): the shadow list below (type, ref, target, bytes; creation order) and the list of other
+ * objects; they are order-free (set of annotations visited exactly once), the order is the model's.
  */
 #ifdef DFAN_C
 #include DFAN_C
@@ -63,6 +76,17 @@ static SA *sa_find(int type, int ref)
 {
     for (int i = 0; i < nsa; i++) if (sa[i].type == type && sa[i].ref == ref) return &sa[i];
     return NULL;
+}
+static void sa_remove(SA *a) { *a = sa[--nsa]; }
+/* other objects of the file (what object annotations are about; their DDs sit between the annotations' DDs) */
+#define MAXOB 40
+static struct { int tag, ref; } ob[MAXOB];
+static int nob;
+static const int OBTAG[] = {1000, DFTAG_NDG, DFTAG_RIG};
+static int ob_find(int tag, int ref)
+{
+    for (int i = 0; i < nob; i++) if (ob[i].tag == tag && ob[i].ref == ref) return i;
+    return -1;
 }
 static void gen_text(int type, uint8_t *b, int *len)
 {
@@ -279,6 +303,110 @@ static void verify_all(const char *when)
     q_walk();
 }
 
+/* ---------------------------------------------------------------- enumerations of the single-file interface */
+/* the documented loop over the file labels (type 2) / file descriptions (type 3) of an open file:
+ *   for (first = 1; DFANgetfidlen(f, first) != FAIL; first = 0) DFANgetfid(f, buf, maxlen, first);
+ * (proto 1: DFANgetfid alone until it fails).  Every annotation of the type that exists must be reported exactly once,
+ * with its length and its bytes, then the walk must end - whatever the refs are.  `stop_after` >= 0 abandons the walk
+ * after that many annotations (the caller goes on with another file).  In 15 % the walk is started again (isfirst = 1)
+ * in the middle; the second pass must report everything again. */
+static int walk_tie = 1; /* 0: the file walked is not the file the model follows (no T lines) */
+static void walk_file_anns(int32 f, int type, const char *when, int stop_after)
+{
+    int cnt = 0, seen[MAXA], nseen = 0, first = 1, restarted = 0, proto = hk_chance(25), ended = 0, lastref = 0, repeat = 0;
+    for (int i = 0; i < nsa; i++) if (sa[i].type == type && sa[i].written) cnt++;
+    for (int step = 0; step < 2 * cnt + 4; step++) {
+        int32 ll = 0;
+        if (!proto) {
+            ll = type == AN_FILE_LABEL ? DFANgetfidlen(f, first) : DFANgetfdslen(f, first);
+            if (walk_tie) { printf("T an dfflen %d %d => ", type, first); if (ll == FAIL) printf("fail\n"); else printf("%d\n", (int)ll); }
+            if (ll == FAIL) { ended = 1; break; }
+        }
+        int maxlen = hk_chance(70) ? TMAX + 8 : (int)hk_range(1, 6);
+        memset(rb, 0xA5, sizeof rb);
+        int32 l = type == AN_FILE_LABEL ? DFANgetfid(f, (char *)rb, maxlen, first) : DFANgetfds(f, (char *)rb, maxlen, first);
+        if (walk_tie) { printf("T an dffget %d %d %d => ", type, first, maxlen); if (l == FAIL) printf("fail"); else hk_hex(rb, (size_t)l); printf("\n"); }
+        if (l == FAIL) { if (proto) ended = 1; else hk_fail("dfan-walk-read", "%s: DFANgetf%s fails after DFANgetf%slen reported %d bytes (annotation %d of %d)", when, type == AN_FILE_LABEL ? "id" : "ds", type == AN_FILE_LABEL ? "id" : "ds", (int)ll, nseen + 1, cnt); break; }
+        int r = DFANlastref();
+        SA *w = sa_find(type, r);
+        for (int j = 0; j < nseen; j++) if (seen[j] == r) repeat = 1;
+        if (repeat) break;
+        lastref = r;
+        if (nseen < MAXA) seen[nseen++] = r;
+        if (!w || !w->written) { hk_fail("dfan-walk-phantom", "%s: the walk reports a file %s with ref %d that does not exist", when, type == AN_FILE_LABEL ? "label" : "description", r); break; }
+        int want = w->len > maxlen - 1 ? maxlen - 1 : w->len;
+        if (!proto && ll != w->len) hk_fail("dfan-walk-len", "%s: length %d reported for ref %d, it has %d bytes", when, (int)ll, r, w->len);
+        if (l != want || memcmp(rb, w->text, (size_t)want) || rb[want] != 0) hk_fail("dfan-walk-data", "%s: ref %d read with maxlen %d: %d bytes (want %d) or bytes differ", when, r, maxlen, (int)l, want);
+        first = 0;
+        if (stop_after >= 0 && nseen >= stop_after) { hk_stat("dfan_walk_abandoned", 1); return; }
+        if (!restarted && nseen < cnt && hk_chance(15)) { first = 1; restarted = 1; nseen = 0; hk_stat("dfan_walk_restart", 1); }
+    }
+    hk_stat(proto ? "dfan_walk_getonly" : "dfan_walk_len_get", 1);
+    int sparse = 0;
+    for (int j = 0; j < nseen; j++) if (seen[j] != j + 1) sparse = 1;
+    if (sparse) hk_stat("dfan_walk_nonconsecutive_refs", 1);
+    if (repeat || !ended) {
+        /* a root cause seen before (repaired by /repo 358eba8): the end-of-list marker was "ref of the last annotation in DD
+         * order + 1" - a ref that may be live, or 0 = DFREF_WILDCARD */
+        int m = (lastref + 1) & 0xffff;
+        if (nseen == cnt && (m == 0 || sa_find(type, m)))
+            hk_fail("dfan-walk-endless", "%s: the walk over the %d file %s does not end: after the last one (ref %d) Next_%s_ref = %d is %s, the walk goes round again", when, cnt,
+                    type == AN_FILE_LABEL ? "labels" : "descriptions", lastref, type == AN_FILE_LABEL ? "label" : "desc", m, m ? "the ref of another one" : "DFREF_WILDCARD");
+        else hk_fail("dfan-walk-repeat", "%s: the walk reports an annotation twice after %d of %d (last ref %d)", when, nseen, cnt, lastref);
+    }
+    else if (nseen != cnt)
+        hk_fail("dfan-walk-lost", "%s: the walk over the file %s ends after %d annotation(s) (last ref %d), %d exist in the file", when, type == AN_FILE_LABEL ? "labels" : "descriptions", nseen, lastref, cnt);
+}
+static void dfan_walks(void)
+{
+    for (int type = AN_FILE_LABEL; type <= AN_FILE_DESC; type++) {
+        int32 f = Hopen(path, DFACC_READ, 0);
+        if (f == FAIL) { hk_fail("an-open", "Hopen for the DFAN walk"); continue; }
+        walk_file_anns(f, type, "DFAN walk", -1);
+        Hclose(f);
+    }
+}
+/* DFANlablist: the refs of the objects of a tag that exist in the file, each with its label */
+static void q_lablist(void)
+{
+    static uint16 refl[MAXOB + 8];
+    static char   labl[(MAXOB + 8) * 64];
+    static const int ML[] = {1, 2, 3, 5, 16, 63, 64};
+    int tag = nob && hk_chance(60) ? ob[hk_range(0, nob - 1)].tag : hk_chance(85) ? HK_PICK(OBTAG) : (int)hk_range(100, 2000), cnt = 0;
+    int listsize = hk_chance(70) ? MAXOB + 8 : (int)hk_range(1, 4), maxlen = HK_PICK(ML), startpos = hk_chance(70) ? 1 : (int)hk_range(0, 4);
+    for (int i = 0; i < nob; i++) if (ob[i].tag == tag) cnt++;
+    for (int i = 0; i < nsa; i++) if (TAGOF[sa[i].type] == tag) cnt++; /* an annotation element is an object of its tag too */
+    DFANclear();
+    int n = DFANlablist(path, (uint16)tag, refl, labl, listsize, maxlen, startpos);
+    printf("T an dflablist %d %d %d %d => ", tag, listsize, maxlen, startpos);
+    if (n == FAIL) printf("fail\n");
+    else {
+        if (n == 0) printf("-"); for (int i = 0; i < n; i++) printf("%s%d", i ? "," : "", refl[i]);
+        printf(" "); if (n == 0) printf("-"); for (int i = 0; i < n; i++) { printf("%s", i ? "," : ""); hk_hex((uint8_t *)labl + i * maxlen, strlen(labl + i * maxlen)); }
+        printf("\n");
+    }
+    hk_stat("dfan_lablist", 1);
+    if ((n == FAIL) != (cnt == 0)) { hk_fail("dfan-lablist-refs", "DFANlablist(tag %d) = %d, %d objects of the tag exist", tag, n, cnt); return; }
+    if (n == FAIL) return;
+    int skip = startpos > 1 ? startpos - 1 : 0, want = cnt - skip < 0 ? 0 : cnt - skip;
+    if (want > listsize) want = listsize;
+    if (n != want) hk_fail("dfan-lablist-refs", "DFANlablist(tag %d, listsize %d, startpos %d) lists %d refs, %d objects of the tag exist", tag, listsize, startpos, n, cnt);
+    for (int i = 0; i < n; i++) {
+        int isann = 0, nl = 0, hit = 0;
+        for (int t = 0; t < 4; t++) if (TAGOF[t] == tag && sa_find(t, refl[i])) isann = 1;
+        if (ob_find(tag, refl[i]) < 0 && !isann) hk_fail("dfan-lablist-refs", "DFANlablist(tag %d) lists ref %d, no such object", tag, refl[i]);
+        for (int j = 0; j < i; j++) if (refl[j] == refl[i]) hk_fail("dfan-lablist-refs", "DFANlablist(tag %d) lists ref %d twice", tag, refl[i]);
+        const char *lp = labl + i * maxlen;
+        for (int j = 0; j < nsa; j++) if (sa[j].type == AN_DATA_LABEL && sa[j].written && sa[j].etag == tag && sa[j].eref == refl[i]) {
+            int w = sa[j].len > maxlen - 1 ? maxlen - 1 : sa[j].len;
+            nl++;
+            if ((int)strlen(lp) == w && !memcmp(lp, sa[j].text, (size_t)w)) hit = 1;
+        }
+        if (nl ? !hit : lp[0] != 0)
+            hk_fail("dfan-lablist-label", "DFANlablist(tag %d, maxlen %d): object ref %d has %d label(s), listed \"%.40s\" is %s", tag, maxlen, refl[i], nl, lp, nl ? "none of them" : "not empty");
+    }
+}
+
 /* ---------------------------------------------------------------- DFAN session on the closed file */
 static void dfan_session(void)
 {
@@ -296,10 +424,11 @@ static void dfan_session(void)
             int lr = DFANlastref();
             printf("T an dfput %d %d %d %d ", type, et, er, lr); hk_hex(t, (size_t)len); printf(" => "); if (r == FAIL) printf("fail\n"); else printf("%d\n", lr);
             if (r == FAIL) { hk_fail("dfan-put", "DFANput%s failed", type == AN_DATA_LABEL ? "label" : "desc"); continue; }
-            /* shadow: the FIRST annotation of that type for the object is replaced, else a new one */
-            SA *hit = NULL;
-            for (int i = 0; i < nsa && !hit; i++) if (sa[i].type == type && sa[i].etag == et && sa[i].eref == er) hit = &sa[i];
-            if (hit) { if (hit->ref != lr) hk_fail("dfan-replace", "DFANput replaced ref %d, shadow expects the first one, ref %d", lr, hit->ref); }
+            /* shadow: one of the annotations of that type the object has is replaced (the model says which: the first in
+             * DD order), a new one only when it has none */
+            SA *hit = NULL, *any = NULL;
+            for (int i = 0; i < nsa; i++) if (sa[i].type == type && sa[i].etag == et && sa[i].eref == er) { any = &sa[i]; if (sa[i].ref == lr) hit = &sa[i]; }
+            if (any) { if (!hit) hk_fail("dfan-replace", "DFANput on an object that has an annotation of the type wrote ref %d, which is none of them (one is ref %d)", lr, any->ref); }
             else if (nsa < MAXA) { if (sa_find(type, lr)) hk_fail("an-ref-fresh", "DFAN new annotation got ref %d in use", lr); hit = &sa[nsa++]; hit->type = type; hit->ref = lr; hit->etag = et; hit->eref = er; }
             if (hit) { memcpy(hit->text, t, (size_t)len); hit->len = len; hit->written = 1; }
             hk_stat("dfan_put", 1);
@@ -322,52 +451,41 @@ static void dfan_session(void)
             SA *o = NULL;
             if (nsa && hk_chance(80)) { o = &sa[hk_range(0, nsa - 1)]; if (!is_data(o->type)) o = NULL; }
             if (o) { et = o->etag; er = o->eref; } else pick_target(&et, &er);
+            /* the annotation DFAN serves is one of those the object has (the model says which: the first in DD order) */
             SA *hit = NULL;
-            for (int i = 0; i < nsa && !hit; i++) if (sa[i].type == type && sa[i].etag == et && sa[i].eref == er) hit = &sa[i];
+            int nlen = 0;
+            for (int i = 0; i < nsa; i++) if (sa[i].type == type && sa[i].etag == et && sa[i].eref == er && sa[i].written) { if (!hit) hit = &sa[i]; nlen++; }
             int32 l = type == AN_DATA_LABEL ? DFANgetlablen(path, (uint16)et, (uint16)er) : DFANgetdesclen(path, (uint16)et, (uint16)er);
             printf("T an dfgetlen %d %d %d => ", type, et, er); if (l == FAIL) printf("fail\n"); else printf("%d\n", (int)l);
             if ((l != FAIL) != (hit != NULL)) hk_fail("dfan-getlen", "DFANget%slen(%d/%d)=%d shadow %s", type == AN_DATA_LABEL ? "lab" : "desc", et, er, (int)l, hit ? "has one" : "has none");
-            else if (hit && l != hit->len) hk_fail("dfan-getlen", "length %d shadow %d", (int)l, hit->len);
+            else if (hit) {
+                SA *m = NULL;
+                for (int i = 0; i < nsa && !m; i++) if (sa[i].type == type && sa[i].etag == et && sa[i].eref == er && sa[i].written && sa[i].len == l) m = &sa[i];
+                if (!m) hk_fail("dfan-getlen", "length %d is the length of none of the %d annotation(s) of the object", (int)l, nlen);
+            }
             if (hit) {
                 int maxlen = hk_chance(60) ? TMAX + 8 : (int)hk_range(1, hit->len + 2);
                 memset(rb, 0xA5, sizeof rb); memset(rb2, 0x5A, sizeof rb2);
                 int r = type == AN_DATA_LABEL ? DFANgetlabel(path, (uint16)et, (uint16)er, (char *)rb, maxlen) : DFANgetdesc(path, (uint16)et, (uint16)er, (char *)rb, maxlen);
                 if (type == AN_DATA_LABEL) DFANgetlabel(path, (uint16)et, (uint16)er, (char *)rb2, maxlen); else DFANgetdesc(path, (uint16)et, (uint16)er, (char *)rb2, maxlen);
+                /* which of the object's annotations was served: the one whose length DFANget*len just reported */
+                for (int i = 0; i < nsa; i++) if (sa[i].type == type && sa[i].etag == et && sa[i].eref == er && sa[i].written && sa[i].len == l) {
+                    int w = sa[i].len;
+                    if (type == AN_DATA_LABEL) { if (w > maxlen - 1) w = maxlen - 1; } else if (w > maxlen) w = maxlen;
+                    hit = &sa[i];
+                    if (!memcmp(rb, sa[i].text, (size_t)w)) break;
+                }
                 int want = hit->len, wr = written_span(rb, rb2);
                 if (type == AN_DATA_LABEL) { if (want > maxlen - 1) want = maxlen - 1; } else if (want > maxlen) want = maxlen;
                 printf("T an dfget %d %d %d %d => ", type, et, er, maxlen); if (r == FAIL) printf("fail"); else { hk_hex(rb, (size_t)want); printf(" %d", wr); } printf("\n");
                 if (r == FAIL) hk_fail("dfan-get", "DFANget failed");
-                else if (memcmp(rb, hit->text, (size_t)want)) hk_fail("dfan-get-data", "DFANget bytes differ from the first annotation of the object");
+                else if (memcmp(rb, hit->text, (size_t)want)) hk_fail("dfan-get-data", "DFANget bytes are the text of none of the object's annotations of that length");
                 else if (wr > maxlen) hk_fail("an-read-overrun", "DFANget(maxlen=%d) wrote %d bytes", maxlen, wr);
             }
         }
     }
-    /* walk the file labels and descriptions */
-    for (int type = AN_FILE_LABEL; type <= AN_FILE_DESC; type++) {
-        int32 f = Hopen(path, DFACC_READ, 0);
-        if (f == FAIL) continue;
-        int k = 0;
-        for (int i = 0; i < nsa + 1; i++) {
-            int maxlen = hk_chance(70) ? TMAX + 8 : (int)hk_range(1, 6);
-            memset(rb, 0xA5, sizeof rb);
-            /* documented pattern: ask for the length, then read (DFANgetfid alone does not advance past a LAST
-             * annotation it did not find through DFANgetfidlen: see REPORT) */
-            int32 ll = type == AN_FILE_LABEL ? DFANgetfidlen(f, i == 0) : DFANgetfdslen(f, i == 0);
-            SA *w = NULL;
-            for (int j = 0, c = 0; j < nsa && !w; j++) if (sa[j].type == type && sa[j].written) { if (c == k) w = &sa[j]; c++; }
-            if ((ll != FAIL) != (w != NULL)) { hk_fail("dfan-getflen", "walk step %d: length %d shadow %s", i, (int)ll, w ? "has one" : "has none"); break; }
-            if (ll == FAIL) { printf("T an dfgetf %d %d %d => fail\n", type, i, maxlen); break; }
-            if (ll != w->len) hk_fail("dfan-getflen", "walk step %d: length %d shadow %d", i, (int)ll, w->len);
-            int32 l = type == AN_FILE_LABEL ? DFANgetfid(f, (char *)rb, maxlen, i == 0) : DFANgetfds(f, (char *)rb, maxlen, i == 0);
-            printf("T an dfgetf %d %d %d => ", type, i, maxlen); if (l == FAIL) printf("fail"); else hk_hex(rb, (size_t)l); printf("\n");
-            if (l == FAIL) { hk_fail("dfan-getf", "walk step %d: read fails after the length was reported", i); break; }
-            if (!w) break;
-            int want = w->len > maxlen - 1 ? maxlen - 1 : w->len;
-            if (l != want || memcmp(rb, w->text, (size_t)want)) hk_fail("dfan-getf-data", "walk step %d: length %d want %d or bytes differ", i, (int)l, want);
-            k++;
-        }
-        Hclose(f);
-    }
+    if (hk_chance(50)) q_lablist();
+    dfan_walks();
 }
 
 /* ---------------------------------------------------------------- several AN sessions on a file that stays open */
@@ -400,7 +518,36 @@ static void gap_writes(int32 f, int n)
 {
     uint8_t t[TMAX + 8]; int len;
     for (int i = 0; i < n && nsa < MAXA; i++) {
-        int a = (int)hk_range(0, 9);
+        int a = (int)hk_range(0, 15);
+        if (a >= 10 && a <= 12) { /* delete an annotation: Hdeldd is all HDF4 offers; its DD becomes a free DD, its ref is free again */
+            if (!nsa) continue;
+            SA *x = &sa[hk_range(0, nsa - 1)];
+            if (!x->written) continue;
+            int32 r = Hdeldd(f, TAGOF[x->type], (uint16)x->ref);
+            printf("T an hdel %d %d => %s\n", TAGOF[x->type], x->ref, r == FAIL ? "fail" : "ok");
+            if (r == FAIL) { hk_fail("an-hdel", "Hdeldd of annotation element %d/%d failed", TAGOF[x->type], x->ref); continue; }
+            hk_stat("gap_delete_annotation", 1);
+            sa_remove(x);
+            continue;
+        }
+        if (a >= 13) { /* another object comes (into the first free DD) or goes (leaving a free DD among the annotations') */
+            if (a == 14 && nob) {
+                int j = (int)hk_range(0, nob - 1);
+                int32 r = Hdeldd(f, (uint16)ob[j].tag, (uint16)ob[j].ref);
+                printf("T an hdel %d %d => %s\n", ob[j].tag, ob[j].ref, r == FAIL ? "fail" : "ok");
+                if (r == FAIL) hk_fail("an-hdel", "Hdeldd of object %d/%d failed", ob[j].tag, ob[j].ref);
+                else { ob[j] = ob[--nob]; hk_stat("gap_delete_object", 1); }
+            }
+            else if (nob < MAXOB) {
+                int tag = HK_PICK(OBTAG), ref = hk_chance(80) ? (int)hk_range(1, 4) : (int)hk_range(1, 65535);
+                if (ob_find(tag, ref) >= 0) continue;
+                int32 r = Hputelement(f, (uint16)tag, (uint16)ref, (const uint8 *)"obj", 3);
+                printf("T an hput %d %d 6f626a => %s\n", tag, ref, r == FAIL ? "fail" : "ok");
+                if (r == FAIL) hk_fail("an-hput", "Hputelement of object %d/%d failed", tag, ref);
+                else { ob[nob].tag = tag; ob[nob].ref = ref; nob++; hk_stat("gap_new_object", 1); }
+            }
+            continue;
+        }
         if (a < 3) { /* single-file interface on the open file id */
             int type = hk_chance(50) ? AN_FILE_LABEL : AN_FILE_DESC;
             gen_text(type, t, &len);
@@ -417,8 +564,18 @@ static void gap_writes(int32 f, int n)
             int type = x ? x->type : (int)hk_range(0, 3), et, er, ref;
             if (x) { et = x->etag; er = x->eref; ref = x->ref; }
             else {
-                ref = Htagnewref(f, TAGOF[type]);
-                if (ref == 0) { hk_fail("an-newref", "Htagnewref"); continue; }
+                /* the writer picks the ref: the lowest free one of the tag (what AN and DFAN do), the file-wide counter, or
+                 * any free one - sparse, out of creation order, the largest */
+                int how = (int)hk_range(0, 9), top = 0;
+                for (int j = 0; j < nsa; j++) if (sa[j].type == type && sa[j].ref > top) top = sa[j].ref;
+                if (how < 4) ref = Htagnewref(f, TAGOF[type]);
+                else if (how < 6) ref = Hnewref(f);
+                else if (how < 8) ref = top + (int)hk_range(2, 6);
+                else if (how < 9) ref = (int)hk_range(1, 65535);
+                else { static const int R[] = {65535, 65534, 256, 255, 32768}; ref = HK_PICK(R); }
+                if (ref == 0) { hk_fail("an-newref", "Htagnewref / Hnewref"); continue; }
+                if (ref > 65535 || sa_find(type, ref) || Hexist(f, TAGOF[type], (uint16)ref) != FAIL) continue;
+                if (how >= 4) hk_stat("gap_hput_explicit_ref", 1);
                 if (is_data(type)) pick_target(&et, &er); else { et = TAGOF[type]; er = ref; }
                 if (sa_find(type, ref)) hk_fail("an-ref-fresh", "Htagnewref gives ref %d of a live annotation", ref);
             }
@@ -464,6 +621,116 @@ static int next_session(int k)
     verify_all(when);
     check_counts("an-session-count", when);
     return 0;
+}
+
+/* the same writers on the file while it is closed: what the next sessions and the DFAN enumerations find is a file
+ * with deleted annotations, refs nobody handed out in sequence, and DDs out of creation order */
+static void offline_edits(void)
+{
+    int32 f = Hopen(path, DFACC_RDWR, 0);
+    if (f == FAIL) { hk_fail("an-open", "Hopen for offline edits"); return; }
+    if (hk_chance(50)) /* the objects the annotations are about */
+        for (int i = (int)hk_range(1, 3); i > 0 && nob < MAXOB; i--) {
+            int tag = HK_PICK(OBTAG), ref = (int)hk_range(1, 4);
+            if (ob_find(tag, ref) >= 0) continue;
+            int32 r = Hputelement(f, (uint16)tag, (uint16)ref, (const uint8 *)"obj", 3);
+            printf("T an hput %d %d 6f626a => %s\n", tag, ref, r == FAIL ? "fail" : "ok");
+            if (r == FAIL) hk_fail("an-hput", "Hputelement of object %d/%d failed", tag, ref);
+            else { ob[nob].tag = tag; ob[nob].ref = ref; nob++; hk_stat("gap_new_object", 1); }
+        }
+    gap_writes(f, (int)hk_range(1, 6));
+    if (Hclose(f) == FAIL) hk_fail("an-hclose", "Hclose after offline edits");
+    hk_stat("offline_edits", 1);
+}
+
+/* the file-annotation walks over several files one after the other; the walk of one file is abandoned in the middle
+ * (the walk state is per process, not per file: a walk started with isfirst = 1 must not depend on the walk before it).
+ * Refs ascend in DD order here (sparse, some deleted): no ref-order subtleties, implementation oracle only. */
+static void probe_dfan_walk_files(void)
+{
+    enum { NF = 3 };
+    static char pa[NF][512];
+    static SA   keep[NF][24];
+    int         nk[NF];
+    for (int i = 0; i < NF; i++) {
+        char nm[32]; snprintf(nm, sizeof nm, "w%d.hdf", i); snprintf(pa[i], sizeof pa[i], "%s", hk_tmp(nm)); remove(pa[i]);
+        int32 f = Hopen(pa[i], DFACC_CREATE, 0);
+        nk[i] = 0;
+        if (f == FAIL) { hk_fail("an-open", "Hopen"); continue; }
+        int n = (int)hk_range(0, 8), ref[2] = {0, 0};
+        for (int j = 0; j < n; j++) {
+            SA *a = &keep[i][nk[i]];
+            a->type = hk_chance(50) ? AN_FILE_LABEL : AN_FILE_DESC; a->written = 1;
+            gen_text(a->type, a->text, &a->len);
+            if (a->len > 60) a->len = 60;
+            a->text[a->len] = 0;
+            if (hk_chance(50)) { /* other objects and gaps between the refs */
+                ref[a->type - 2] += (int)hk_range(1, 5);
+                if (Hputelement(f, TAGOF[a->type], (uint16)ref[a->type - 2], a->text, a->len) == FAIL) { hk_fail("an-hput", "Hputelement"); continue; }
+                Hputelement(f, 1000, (uint16)(j + 1), (const uint8 *)"obj", 3);
+            }
+            else {
+                if ((a->type == AN_FILE_LABEL ? DFANaddfid(f, (char *)a->text) : DFANaddfds(f, (char *)a->text, a->len)) == FAIL) { hk_fail("dfan-addf", "DFANaddf"); continue; }
+                if (DFANlastref() <= ref[a->type - 2]) { Hdeldd(f, TAGOF[a->type], DFANlastref()); continue; } /* keep refs ascending in DD order */
+                ref[a->type - 2] = DFANlastref();
+            }
+            a->ref = ref[a->type - 2];
+            nk[i]++;
+        }
+        /* delete some that are not the last of their type */
+        for (int j = 0; j + 1 < nk[i]; j++) if (hk_chance(30)) {
+            int later = 0;
+            for (int q = j + 1; q < nk[i]; q++) if (keep[i][q].type == keep[i][j].type) later = 1;
+            if (!later) continue;
+            if (Hdeldd(f, TAGOF[keep[i][j].type], (uint16)keep[i][j].ref) == FAIL) hk_fail("an-hdel", "Hdeldd"); 
+            for (int q = j; q + 1 < nk[i]; q++) keep[i][q] = keep[i][q + 1];
+            nk[i]--; j--;
+            hk_stat("walk_files_deleted", 1);
+        }
+        Hclose(f);
+    }
+    int rounds = (int)hk_range(2, 5);
+    walk_tie = 0;
+    for (int r = 0; r < rounds; r++) {
+        int i = (int)hk_range(0, NF - 1), type = hk_chance(50) ? AN_FILE_LABEL : AN_FILE_DESC;
+        int32 f = Hopen(pa[i], DFACC_READ, 0);
+        if (f == FAIL) continue;
+        /* walk file i against its own annotations: borrow the global shadow */
+        nsa = nk[i]; memcpy(sa, keep[i], sizeof(SA) * (size_t)nk[i]);
+        char when[64]; snprintf(when, sizeof when, "file %d of %d, round %d", i, NF, r);
+        walk_file_anns(f, type, when, hk_chance(40) ? (int)hk_range(0, 2) : -1);
+        Hclose(f);
+        nsa = 0;
+    }
+    walk_tie = 1;
+    for (int i = 0; i < NF; i++) remove(pa[i]);
+}
+
+/* DFANlablist with maxlen = 1 (room for the NUL only): the clipped length 0 means "to the end" for Hread */
+static void probe_lablist_maxlen1(void)
+{
+    static const char *L[2] = {"a long label of 30 bytes......", "another long label"};
+    uint16 refs[4];
+    char   buf[128];
+    int32  f = Hopen(path, DFACC_CREATE, 0);
+    if (f == FAIL) return;
+    Hputelement(f, 1000, 1, (const uint8 *)"obj", 3); printf("T an hput 1000 1 6f626a => ok\n");
+    Hputelement(f, 1000, 2, (const uint8 *)"obj", 3); printf("T an hput 1000 2 6f626a => ok\n");
+    Hclose(f);
+    DFANclear();
+    for (int i = 0; i < 2; i++) {
+        if (DFANputlabel(path, 1000, (uint16)(i + 1), (char *)L[i]) == FAIL) { hk_fail("dfan-put", "DFANputlabel"); return; }
+        printf("T an dfput %d 1000 %d %d ", AN_DATA_LABEL, i + 1, (int)DFANlastref()); hk_hex((const uint8_t *)L[i], strlen(L[i])); printf(" => %d\n", (int)DFANlastref());
+    }
+    memset(buf, 0x5A, sizeof buf); /* the caller's buffer is buf[0 .. listsize * maxlen - 1] = buf[0..1] */
+    DFANclear();
+    int n = DFANlablist(path, 1000, refs, buf, 2, 1, 1), over = 0;
+    for (int i = 2; i < (int)sizeof buf; i++) if (buf[i] != 0x5A) over++;
+    if (n == 2 && !over) { printf("T an dflablist 1000 2 1 1 => %d,%d ", refs[0], refs[1]); hk_hex((uint8_t *)buf, strlen(buf)); printf(","); hk_hex((uint8_t *)buf + 1, buf[1] ? 1 : 0); printf("\n"); }
+    if (n != 2) hk_fail("dfan-lablist-refs", "DFANlablist(listsize 2, maxlen 1) = %d, 2 objects exist", n);
+    if (over) hk_fail("dfan-lablist-overrun", "DFANlablist(listsize 2, maxlen 1) writes %d bytes beyond the caller's 2-byte label buffer: Hread(aid, maxlen - 1 = 0) reads to the end of the label", over);
+    else if (n == 2 && (buf[0] || buf[1])) hk_fail("dfan-lablist-label", "DFANlablist(maxlen 1): labels are not empty strings");
+    DFANclear();
 }
 
 static void probe_create_first(void)
@@ -633,8 +900,10 @@ static void probe_dfan_multi(void)
 static void run_case(int k)
 {
     path = hk_tmp("a.hdf");
-    nsa = 0; nextra = 0; an = FAIL;
+    nsa = 0; nextra = 0; an = FAIL; nob = 0;
     if (k % 50 >= 12 && k % 50 <= 15) { printf("INFO dfan-multi-file\n"); probe_dfan_multi(); return; }
+    if (k % 50 == 18) { printf("INFO lablist-maxlen-1\n"); probe_lablist_maxlen1(); return; }
+    if (k % 50 == 16 || k % 50 == 17) { printf("INFO dfan-walk-files\n"); probe_dfan_walk_files(); return; }
     if (k % 50 == 7) { printf("INFO create-first\n"); probe_create_first(); return; }
     if (probes_on && k % 50 == 8) { printf("INFO probe empty-text\n"); probe_empty_text(); return; }
     if (k % 50 == 9) { printf("INFO maxlen-1\n"); probe_maxlen1(); return; }
@@ -685,13 +954,17 @@ static void run_case(int k)
         for (int i = 0; i < ns; i++) if (next_session(i + 2) < 0) break;
     }
     close_an();
+    if (hk_chance(50)) { offline_edits(); if (hk_chance(50)) dfan_walks(); }
     if (hk_chance(70)) dfan_session();
+    if (hk_chance(40)) { offline_edits(); if (hk_chance(60)) dfan_walks(); }
     int info = hk_chance(70);
     if (open_an(0, info) < 0) return;
     if (!info && hk_chance(60)) { do_create(); do_create(); hk_stat("create_first_sessions", 1); } /* creation is the first AN call */
     verify_all("after-reopen");
     if (hk_chance(40)) { for (int i = 0; i < 4; i++) do_create(); verify_all("second-session"); }
+    check_counts("an-count", "last session");
     close_an();
+    if (hk_chance(50)) dfan_walks();
     if (k < 3) printf("SAMPLE annotations=%d steps=%d many=%d\n", nsa, steps, many);
 }
 
